@@ -4,7 +4,7 @@ from .. import core, mt_check
 
 def run(tier, seed, verdict):
     quick = tier == "quick"
-    iters = 6000 if quick else 150000
+    iters = 6000 if quick else 60000
     res = mt_check.MtResult()
     sets = []
     victims_v1 = (0, 281, 282, 271, 273)
